@@ -367,7 +367,7 @@ func TestC20(t *testing.T) {
 					val = strings.TrimSpace(val + " key64999=" + strings.Repeat("w", 900))
 				}
 				z.Records = append(z.Records, &cfRecord{ID: fmt.Sprintf("rec%d", rid), Name: fmt.Sprintf("h%d.%s", i, z.Name), Type: "HTTPS",
-					Priority: rapid.IntRange(1, 3).Draw(t, "prio"), Target: rapid.SampledFrom([]string{".", "t.example."}).Draw(t, "target"), Value: val})
+					Priority: rapid.SampledFrom([]int{1, 1, 2, 2, 3, 3, 1, 2, 32767, 32768, 40000, 65535}).Draw(t, "prio"), Target: rapid.SampledFrom([]string{".", "t.example."}).Draw(t, "target"), Value: val})
 				if rapid.IntRange(0, 5).Draw(t, "other") == 0 {
 					rid++
 					z.Records = append(z.Records, &cfRecord{ID: fmt.Sprintf("rec%d", rid), Name: fmt.Sprintf("h%d.%s", i, z.Name), Type: "A", Value: "192.0.2.1"})
